@@ -88,12 +88,23 @@ type loaded struct {
 	embeds   map[*ssa.Global][]byte
 }
 
-func loadProgram(prop string) *loaded {
+func loadProgram(prop string) *loaded { return loadProgramWith(prop, nil) }
+
+// loadProgramFor loads the given harness packages (for the differential self-test).
+func loadProgramFor(pkgs []string) *loaded { return loadProgramWith("", pkgs) }
+
+func loadProgramWith(prop string, only []string) *loaded {
 	t0 := time.Now()
 	files := findHarnessFiles()
 	overlay := map[string][]byte{}
 	pkgSet := map[string]bool{"zzverif": true}
+	for _, p := range only {
+		pkgSet[p] = true
+	}
 	for _, f := range files {
+		if only != nil {
+			break
+		}
 		src, err := os.ReadFile(f.real)
 		if err != nil {
 			fatal("read %s: %v", f.real, err)
@@ -740,6 +751,6 @@ func assumptionsFor(prop string, intr []string) []string {
 
 var _ = types.Typ
 
-var harnessNameRe = regexp.MustCompile(`^Verif(C[0-9]+|Selftest)_`)
+var harnessNameRe = regexp.MustCompile(`^Verif(C[0-9]+|Selftest|Diff)_`)
 
 func isHarnessName(n string) bool { return harnessNameRe.MatchString(n) }
